@@ -23,8 +23,17 @@
 //! Caller contract honoured by the API-level generators (see `Contract`).
 //! Latitude (accepted either way, counted in the evidence): see
 //! `vbv::Latitude` — signed MIN / -1, `**` with operands of different
-//! signedness, an x/z sign bit being replicated, unary `+` on x/z; and the
-//! signedness *flag* carried by a result (DESIGN.md §6b).
+//! signedness, an x/z sign bit being replicated, unary `+` on x/z, the
+//! signedness of `'0 '1 'x 'z` in a context; and, at the API level, the
+//! signedness *flag* carried by a result value (DESIGN.md §6b) — what that
+//! flag breaks is observed at the language level.
+//!
+//! Listed findings (`/verif/known_findings.d/C17.json`, input classes in
+//! `known`): a disagreement inside the input class of a listed finding gets
+//! that finding's key; everything else gets a generic signature
+//! `api|lang:<operator>:<expected kind>-><actual kind>` and is a VIOLATION.
+//! The reproducer of every listed finding (a real Veryl module of `const`s)
+//! is replayed through the analyzer on every run.
 
 use num_bigint::BigUint;
 use num_traits::ToPrimitive;
@@ -228,9 +237,56 @@ fn lat_name(l: Latitude) -> &'static str {
         Latitude::PowMixedSign => "pow_mixed_sign",
         Latitude::XzSignBit => "xz_sign_bit",
         Latitude::UnaryPlusXz => "unary_plus_xz",
+        Latitude::UnsizedLiteralSign => "unsized_literal_sign",
     }
 }
 
+/// Input classes of the deviations already recorded as findings
+/// (/verif/known_findings.d/C17.json).  A disagreement inside such a class
+/// *and in the recorded direction* gets the finding's key as its signature;
+/// anything else gets a generic `level:op:expected->actual` signature, so a
+/// new defect of the same operator is not hidden behind a listed one.
+pub mod known {
+    /// `==` / `!=` whose relation is ambiguous because of x/z bits (LRM: x)
+    /// answered with a definite 0 / 1.
+    pub const EQ_AMBIGUOUS: &str = "eq-ambiguous-gives-definite";
+    /// `&&` whose result is 0 (an operand is known to be zero) while an
+    /// operand carries an x/z bit, answered x.
+    pub const LOGAND_FALSE_UNKNOWN: &str = "logand-false-with-xz-operand-gives-x";
+    /// `?:` with an unknown condition (LRM: bitwise merge) takes the else arm.
+    pub const COND_UNKNOWN: &str = "cond-unknown-takes-else-arm";
+    /// `**` whose signed exponent has x/z bits (LRM: all x) computed from the
+    /// payload bits.
+    pub const POW_XZ_EXPONENT: &str = "pow-xz-in-signed-exponent";
+    /// `**` with a negative exponent and a signed base inside an unsigned
+    /// context: the base is read as signed.
+    pub const POW_SIGNED_BASE_UNSIGNED_CTX: &str = "pow-negative-exponent-signed-base-in-unsigned-context";
+    /// `**` with a non-negative exponent ≥ 2^64: the exponent saturates to
+    /// `usize::MAX` instead of being reduced exactly.
+    pub const POW_HUGE_EXPONENT: &str = "pow-exponent-above-64-bits-saturates";
+    /// The `signed` flag of an operator's result value is not the expression
+    /// type (bitwise operators and `<< >>` always clear it; unary `+ - ~`,
+    /// `<<< >>>`, `**` and `?:` keep the operand's own flag even in an
+    /// unsigned context), and `== != ==? !=?`, the arms of `?:` and the
+    /// exponent of `**` decide sign extension / sign from that flag.
+    pub const RESULT_FLAG: &str = "result-signed-flag-is-not-the-expression-type";
+    /// A bit/part select of a signed constant still counts as signed when
+    /// the signedness of its context is determined (LRM 11.8.1: unsigned).
+    pub const SELECT_SIGNED: &str = "part-select-of-signed-operand-keeps-context-signed";
+    /// The 1-bit result of `<: <= >: >=` with two signed operands counts as a
+    /// signed operand of the surrounding context (LRM 11.8.1: unsigned).
+    pub const RELATIONAL_SIGNED: &str = "relational-result-counts-as-signed-operand";
+    /// A bit/part select of a const whose selected bits contain x/z evaluates
+    /// to the low bits of the whole const.
+    pub const SELECT_XZ: &str = "part-select-with-xz-result-reads-low-bits";
+    /// Reference to a const whose initialiser's signedness differs from the
+    /// declared type (excluded from the generator by construction).
+    pub const CONST_REF: &str = "const-ref-signedness-from-initializer";
+}
+
+/// `known_class`: `Some(key)` when the input is in the class of a listed
+/// finding and `known_dir(actual)` says the result deviates in its direction.
+#[allow(clippy::too_many_arguments)]
 fn judge(
     level: &str,
     optext: &str,
@@ -238,6 +294,7 @@ fn judge(
     alternatives: &[Bv],
     latitude: Vec<Latitude>,
     actual: &Value,
+    known_class: Option<(&'static str, &dyn Fn(&Bv) -> bool)>,
     describe: impl Fn() -> (String, serde_json::Value),
 ) -> Verdict {
     let expected = &alternatives[0];
@@ -268,8 +325,12 @@ fn judge(
         };
     }
     let (text, input) = describe();
+    let sig = match known_class {
+        Some((key, dir)) if dir(&act) => key.to_string(),
+        _ => format!("{level}:{optext}:{}->{}", kind(expected, one_bit), kind(&act, one_bit)),
+    };
     Verdict::Bad(Mismatch {
-        sig: format!("{level}:{optext}:{}->{}", kind(expected, one_bit), kind(&act, one_bit)),
+        sig,
         msg: format!(
             "{text}\n  IEEE 1800 value: {expected}{}\n  veryl computes : {act}",
             if alternatives.len() > 1 {
@@ -280,6 +341,38 @@ fn judge(
         ),
         input,
     })
+}
+
+type KnownDir = Box<dyn Fn(&Bv) -> bool>;
+
+/// The listed-finding class an API-level evaluation falls into, if any.
+fn known_class_bin(bop: BinOp, x: Option<&Bv>, y: Option<&Bv>, signed_arg: bool, expected: &Bv) -> Option<(&'static str, KnownDir)> {
+    use vbv::Truth;
+    match bop {
+        BinOp::Eq if expected.bit(0) == Bit::X => Some((known::EQ_AMBIGUOUS, Box::new(|a: &Bv| a.bit(0) == Bit::Zero))),
+        BinOp::Ne if expected.bit(0) == Bit::X => Some((known::EQ_AMBIGUOUS, Box::new(|a: &Bv| a.bit(0) == Bit::One))),
+        BinOp::LogAnd => {
+            let (x, y) = (x?, y?);
+            if (x.truth() == Truth::False || y.truth() == Truth::False) && (x.has_xz() || y.has_xz()) {
+                Some((known::LOGAND_FALSE_UNKNOWN, Box::new(|a: &Bv| a.bit(0) == Bit::X)))
+            } else {
+                None
+            }
+        }
+        BinOp::Pow => {
+            let (x, y) = (x?, y?);
+            if y.signed() && y.has_xz() {
+                Some((known::POW_XZ_EXPONENT, Box::new(|a: &Bv| !a.has_xz())))
+            } else if !signed_arg && x.signed() && y.to_bigint().is_some_and(|e| e < 0.into()) {
+                Some((known::POW_SIGNED_BASE_UNSIGNED_CTX, Box::new(|_| true)))
+            } else if y.to_bigint().is_some_and(|e| e.bits() > 64 && e > 0.into()) {
+                Some((known::POW_HUGE_EXPONENT, Box::new(|a: &Bv| !a.has_xz())))
+            } else {
+                None
+            }
+        }
+        _ => None,
+    }
 }
 
 pub fn check_binary(
@@ -305,10 +398,69 @@ pub fn check_binary(
     }
     let actual = vop.eval_value_binary(&to_value(x), &to_value(y), w, signed_arg, mc);
     let one_bit = matches!(bop.class(), BinClass::Compare | BinClass::Logical);
-    judge("api", text, one_bit, &alts, e.latitude, &actual, || {
+    let kc = known_class_bin(bop, Some(x), Some(y), signed_arg, &alts[0]);
+    let kc = kc.as_ref().map(|(k, f)| (*k, f.as_ref() as &dyn Fn(&Bv) -> bool));
+    judge("api", text, one_bit, &alts, e.latitude, &actual, kc, || {
         (
-            format!("({x}) {text} ({y})  evaluated with width={w} signed={signed_arg}"),
+            format!("Op::eval_value_binary: ({x}) {text} ({y})  evaluated with width={w} signed={signed_arg}"),
             json!({"kind": "binary", "op": text, "x": x.to_string(), "y": y.to_string(), "width": w, "signed": signed_arg}),
+        )
+    })
+}
+
+/// One operand is an unbased unsized literal (`'0 '1 'x 'z`): veryl keeps it
+/// as a width-0 value until an operator expands it to the context width.
+pub fn check_binary_fill(
+    (bop, vop, text): (BinOp, Op, &str),
+    sized: &Bv,
+    fill: Bit,
+    fill_is_left: bool,
+    w: usize,
+    signed_arg: bool,
+    mc: &mut MaskCache,
+) -> Verdict {
+    use vbv::expr::Expr;
+    let (ex, ey) = if fill_is_left {
+        (Expr::Fill(fill), Expr::Lit(sized.clone()))
+    } else {
+        (Expr::Lit(sized.clone()), Expr::Fill(fill))
+    };
+    let e = Expr::bin(bop, ex, ey);
+    let r = vbv::eval_in_context(&e, Some(w), Some(signed_arg), &Dialect::default());
+    if r.latitude.contains(&Latitude::SignedMinDivMinusOne) {
+        return Verdict::Unconstrained;
+    }
+    let mut alts = vec![r.value];
+    if !r.latitude.is_empty() {
+        for d in Dialect::all() {
+            let v = vbv::eval_in_context(&e, Some(w), Some(signed_arg), &d).value;
+            if !alts.contains(&v) {
+                alts.push(v);
+            }
+        }
+    }
+    let (p, m) = match fill {
+        Bit::Zero => (0, 0),
+        Bit::One => (1, 0),
+        Bit::X => (0, 1),
+        Bit::Z => (1, 1),
+    };
+    let fv = Value::U64(ValueU64 { payload: p, mask_xz: m, width: 0, signed: false });
+    let sv = to_value(sized);
+    let actual = if fill_is_left {
+        vop.eval_value_binary(&fv, &sv, w, signed_arg, mc)
+    } else {
+        vop.eval_value_binary(&sv, &fv, w, signed_arg, mc)
+    };
+    let one_bit = matches!(bop.class(), BinClass::Compare | BinClass::Logical);
+    let ft = format!("'{}", fill.to_char());
+    let kc = known_class_bin(bop, None, None, signed_arg, &alts[0]);
+    let kc = kc.as_ref().map(|(k, f)| (*k, f.as_ref() as &dyn Fn(&Bv) -> bool));
+    judge("api", &format!("{text}:fill"), one_bit, &alts, r.latitude, &actual, kc, || {
+        let (a, b) = if fill_is_left { (ft.clone(), sized.to_string()) } else { (sized.to_string(), ft.clone()) };
+        (
+            format!("({a}) {text} ({b})  evaluated with width={w} signed={signed_arg}"),
+            json!({"kind": "binary-fill", "op": text, "sized": sized.to_string(), "fill": ft, "fill_is_left": fill_is_left, "width": w, "signed": signed_arg}),
         )
     })
 }
@@ -325,7 +477,7 @@ pub fn check_unary((uop, vop, text): (UnOp, Op, &str), x: &Bv, w: usize, signed_
         }
     }
     let actual = vop.eval_value_unary(&to_value(x), w, signed_arg, mc);
-    judge("api", &format!("unary{text}"), !uop.is_context(), &alts, e.latitude, &actual, || {
+    judge("api", &format!("unary{text}"), !uop.is_context(), &alts, e.latitude, &actual, None, || {
         (
             format!("{text}({x})  evaluated with width={w} signed={signed_arg}"),
             json!({"kind": "unary", "op": text, "x": x.to_string(), "width": w, "signed": signed_arg}),
@@ -369,6 +521,17 @@ fn replay_api(p: &serde_json::Value) -> Outcome {
             };
             check_unary(*op, &x, w, s, &mut mc)
         }
+        "binary-fill" => {
+            let Some(op) = BIN_OPS.iter().find(|o| o.2 == get("op")) else {
+                return Outcome::skip("unknown operator in payload");
+            };
+            let Some(x) = parse_bv(&get("sized")) else {
+                return Outcome::skip("malformed operand in payload");
+            };
+            let f = get("fill").chars().last().and_then(Bit::from_char).unwrap_or(Bit::Zero);
+            let left = p.get("fill_is_left").and_then(|v| v.as_bool()).unwrap_or(false);
+            check_binary_fill(*op, &x, f, left, w, s, &mut mc)
+        }
         _ => return Outcome::skip("not an api payload"),
     };
     match verdict {
@@ -400,6 +563,8 @@ fn all_values(w: usize, signed: bool) -> Vec<Bv> {
 enum Cfg {
     Bin { op: usize, wx: usize, wy: usize, sx: bool, sy: bool, w: usize, signed: bool },
     Un { op: usize, wx: usize, sx: bool, w: usize, signed: bool },
+    /// one sized operand, the other an unbased unsized literal
+    Fill { op: usize, wx: usize, sx: bool, w: usize, left: bool },
 }
 
 #[derive(Default)]
@@ -461,6 +626,18 @@ fn run_cfg(c: &Cfg, mc: &mut MaskCache) -> CfgResult {
                 r.take(check_unary(UN_OPS[op], x, w, signed, mc));
             }
         }
+        Cfg::Fill { op, wx, sx, w, left } => {
+            for x in &all_values(wx, sx) {
+                for f in Bit::ALL {
+                    // the caller passes the sized operand's signedness (the
+                    // unsized literal does not make veryl's context unsigned;
+                    // accepted either way, `Latitude::UnsizedLiteralSign`)
+                    for signed in if sx && BIN_OPS[op].0.class() == BinClass::Arith { vec![false, true] } else { vec![false] } {
+                        r.take(check_binary_fill(BIN_OPS[op], x, f, left, w, signed, mc));
+                    }
+                }
+            }
+        }
     }
     r
 }
@@ -479,6 +656,21 @@ fn exhaustive(ctx: &Ctx) {
                                 cfgs.push(Cfg::Bin { op: i, wx, wy, sx, sy, w, signed });
                             }
                         }
+                    }
+                }
+            }
+        }
+    }
+    for (i, (bop, _, _)) in BIN_OPS.iter().enumerate() {
+        // an unbased unsized literal is only legal where its width comes from a sibling
+        if !matches!(bop.class(), BinClass::Arith | BinClass::Compare) {
+            continue;
+        }
+        for wx in 1..=maxw {
+            for sx in [false, true] {
+                for w in context_widths(Contract::min_width_bin(*bop, wx, 0), full) {
+                    for left in [false, true] {
+                        cfgs.push(Cfg::Fill { op: i, wx, sx, w, left });
                     }
                 }
             }
@@ -530,6 +722,7 @@ fn exhaustive(ctx: &Ctx) {
         let (optext, class) = match c {
             Cfg::Bin { op, w, .. } => (BIN_OPS[*op].2.to_string(), if *w > 64 { "ctx>64" } else { "ctx<=64" }),
             Cfg::Un { op, w, .. } => (format!("unary{}", UN_OPS[*op].2), if *w > 64 { "ctx>64" } else { "ctx<=64" }),
+            Cfg::Fill { op, w, .. } => (format!("{}:fill", BIN_OPS[*op].2), if *w > 64 { "ctx>64" } else { "ctx<=64" }),
         };
         if r.bad.is_empty() {
             ctx.record(
@@ -744,14 +937,16 @@ fn valueops_case(d: &mut Draw) -> Outcome {
         }
         3 => {
             let wy = draw_width(d);
-            let y = draw_bv(d, wy, d.bool());
+            let sy = d.bool();
+            let y = draw_bv(d, wy, sy);
             ("concat", format!("({x}).concat({y})"), x.concat(&y), vx.concat(&to_value(&y)))
         }
         _ => {
             // in-range assign of a slice; the written value is as wide as the slice
             let end = d.usize_in(0, w - 1);
             let beg = d.usize_in(end, w - 1);
-            let y = draw_bv(d, beg - end + 1, d.bool());
+            let sy = d.bool();
+            let y = draw_bv(d, beg - end + 1, sy);
             let mut v = vx.clone();
             v.assign(to_value(&y), beg, end);
             ("assign", format!("({x}).assign({y}, {beg}, {end})"), x.part_assign(beg, end, &y), v)
@@ -788,15 +983,35 @@ fn valueops_case(d: &mut Draw) -> Outcome {
 // ---------------------------------------------------------------------------
 
 pub fn run(ctx: &Ctx) {
+    // development aid: C17_ONLY=exhaustive|random|valueops|lang runs one sub-check
+    let only = std::env::var("C17_ONLY").ok();
+    let want = |s: &str| only.as_deref().is_none_or(|o| o == s);
+    let t0 = std::time::Instant::now();
+    let lap = |name: &str, since: std::time::Instant| {
+        ctx.note(&format!("wall_s_{name}"), json!((since.elapsed().as_secs_f64() * 10.0).round() / 10.0));
+    };
     ctx.run_payloads("api", replay_api);
-    if !ctx.replay_mode() {
+    if !ctx.replay_mode() && want("exhaustive") {
         exhaustive(ctx);
+        lap("exhaustive", t0);
     }
-    let n = ctx.scale(200_000, 5_000_000);
-    ctx.run("random", CaseCfg::cases(n).choices(200).same_thread(), random_case);
-    let n = ctx.scale(60_000, 1_500_000);
-    ctx.run("valueops", CaseCfg::cases(n).choices(120).same_thread(), valueops_case);
-    crate::c17lang::run(ctx);
+    if want("random") {
+        let t = std::time::Instant::now();
+        let n = ctx.scale(200_000, 5_000_000);
+        ctx.run("random", CaseCfg::cases(n).choices(200).same_thread(), random_case);
+        lap("random", t);
+    }
+    if want("valueops") {
+        let t = std::time::Instant::now();
+        let n = ctx.scale(60_000, 1_500_000);
+        ctx.run("valueops", CaseCfg::cases(n).choices(120).same_thread(), valueops_case);
+        lap("valueops", t);
+    }
+    if want("lang") {
+        let t = std::time::Instant::now();
+        crate::c17lang::run(ctx);
+        lap("lang", t);
+    }
 
     ctx.assume("vbv (harness/vbv) is the reading of IEEE 1800-2017 clause 11 the results are compared with");
     ctx.assume("API level: width/signed arguments restricted to what Expression::eval_value passes (c17.rs `Contract`); operands not wider than the context (no narrowing `as`)");
